@@ -890,6 +890,12 @@ class TunnelCommunity(Community):
             if created_request is not None and created_request.extend_identifier != request.extend_identifier:
                 self.logger.info("Ignoring created for a superseded extend attempt on circuit %s", request.from_circuit_id)
                 return
+            if created_request is None and request.from_circuit_id in self.relay_from_to:
+                # The record of our own join has expired (unstable_timeout), so we cannot tell which extend attempt is
+                # the owner's latest. The circuit has been extended already (the exit socket merely lingers until its
+                # delayed removal): do not re-route it.
+                self.logger.info("Ignoring created for the already extended circuit %s", request.from_circuit_id)
+                return
             session_keys = self.exit_sockets[request.from_circuit_id].hop.keys
             self.remove_exit_socket(request.from_circuit_id, remove_now=True)
 
